@@ -179,11 +179,22 @@ func (m *Mixin) Copy() *Mixin {
 }
 
 func (m *Mixin) DeepCopyEnv(oldEnv, newEnv *GlobalEnvironment) *Mixin {
-	mixinConstantPath := GetConstantPath(m.name)
-	parentNamespace := DeepCopyNamespacePath(mixinConstantPath[:len(mixinConstantPath)-1], oldEnv, newEnv)
+	anonymous := m.name == ""
+	var mixinConstantPath []string
+	var parentNamespace Namespace
+	if anonymous {
+		// anonymous mixins (`extend where`) have no constant path: they cannot be found by name
+		// in the new environment, the copy is remembered per copied object instead
+		if newMixin, ok := newEnv.anonymousMixinCopies[m]; ok {
+			return newMixin
+		}
+	} else {
+		mixinConstantPath = GetConstantPath(m.name)
+		parentNamespace = DeepCopyNamespacePath(mixinConstantPath[:len(mixinConstantPath)-1], oldEnv, newEnv)
 
-	if newType, ok := NameToTypeOk(m.name, newEnv); ok {
-		return newType.(*Mixin)
+		if newType, ok := NameToTypeOk(m.name, newEnv); ok {
+			return newType.(*Mixin)
+		}
 	}
 
 	newMixin := &Mixin{
@@ -193,7 +204,14 @@ func (m *Mixin) DeepCopyEnv(oldEnv, newEnv *GlobalEnvironment) *Mixin {
 		native:        m.native,
 		NamespaceBase: MakeNamespaceBase(m.docComment, m.name),
 	}
-	parentNamespace.DefineSubtype(value.ToSymbol(mixinConstantPath[len(mixinConstantPath)-1]), newMixin)
+	if anonymous {
+		if newEnv.anonymousMixinCopies == nil {
+			newEnv.anonymousMixinCopies = make(map[*Mixin]*Mixin)
+		}
+		newEnv.anonymousMixinCopies[m] = newMixin
+	} else {
+		parentNamespace.DefineSubtype(value.ToSymbol(mixinConstantPath[len(mixinConstantPath)-1]), newMixin)
+	}
 
 	newMixin.singleton = nil
 	newMixin.singleton = DeepCopyEnv(m.singleton, oldEnv, newEnv).(*SingletonClass)
